@@ -373,6 +373,26 @@ pub fn tc_to_gamma(t: TC, x: f64) -> Option<f64> {
     })
 }
 
+// High-precision reading of the same BT.2100 scene-referred PQ curve (BT.2390 5.3.1): alpha and
+// beta chosen for continuity of the BT.709 OETF, and the OOTF scale derived from alpha so that
+// E = 1 still maps to 10000 cd/m2. Both readings are self-consistent forms of the definition.
+pub const HP_ALPHA: f64 = 1.09929682680944;
+pub const HP_BETA: f64 = 0.018053968510807;
+pub fn hp_ootf_scale() -> f64 {
+    ((100f64.powf(1.0 / 2.4) + HP_ALPHA - 1.0) / HP_ALPHA).powf(1.0 / 0.45)
+}
+pub fn pq_to_linear_hp(x: f64) -> f64 {
+    let fd = pq_eotf(x);
+    let v = (100.0 * fd).powf(1.0 / 2.4);
+    let e = if v <= 4.5 * HP_BETA { v / 4.5 } else { ((v + (HP_ALPHA - 1.0)) / HP_ALPHA).powf(1.0 / 0.45) };
+    e / hp_ootf_scale()
+}
+pub fn pq_to_gamma_hp(x: f64) -> f64 {
+    let e = hp_ootf_scale() * x;
+    let g = if e <= HP_BETA { 4.5 * e } else { HP_ALPHA * e.powf(0.45) - (HP_ALPHA - 1.0) };
+    pq_inv_eotf(g.powf(2.4) / 100.0)
+}
+
 /// Budget of C03/C10 for a characteristic and direction.
 pub fn tc_budget(t: TC, to_gamma: bool) -> f64 {
     if t == TC::PerceptualQuantizer && to_gamma {
